@@ -37,7 +37,8 @@ theorem pre_append_post (h : History) (T : Tid) : preOf h T ++ postOf h T = h :=
   List.takeWhile_append_dropWhile
 
 theorem pre_le {h : History} {T : Tid} {t : Txn} (ht : t ∈ preOf h T) : t.tid ≤ T := by
-  have := List.mem_takeWhile_imp ht
+  have hall : (preOf h T).all (fun t => decide (t.tid ≤ T)) = true := List.all_takeWhile
+  have := List.all_eq_true.1 hall t ht
   simpa using this
 
 theorem post_gt {h : History} {T : Tid} (hs : Sorted h) : ∀ t ∈ postOf h T, T < t.tid := by
@@ -54,7 +55,7 @@ theorem post_gt {h : History} {T : Tid} (hs : Sorted h) : ∀ t ∈ postOf h T, 
       have ha : T < a.tid := by simpa using hna
       rcases List.mem_cons.1 ht with rfl | ht
       · exact ha
-      · have := (List.pairwise_cons.1 hs).1 t ht
+      · have h1 : a.tid < t.tid := (List.pairwise_cons.1 hs).1 t ht
         omega
 
 theorem sorted_append {a b : History} (hs : Sorted (a ++ b)) : Sorted a ∧ Sorted b ∧
@@ -78,8 +79,10 @@ theorem sorted_tid_inj {h : History} (hs : Sorted h) {a b : Txn} (ha : a ∈ h) 
     have ⟨h1, h2⟩ := List.pairwise_cons.1 hs
     rcases List.mem_cons.1 ha with rfl | ha' <;> rcases List.mem_cons.1 hb with rfl | hb'
     · rfl
-    · have := h1 b hb'; omega
-    · have := h1 a ha'; omega
+    · have h3 : a.tid < b.tid := h1 b hb'
+      omega
+    · have h3 : b.tid < a.tid := h1 a ha'
+      omega
     · exact ih h2 ha' hb'
 
 /-! ### recsOf -/
@@ -131,8 +134,8 @@ theorem lastBefore_append {pre post : History} {T b : Tid} (hb : T < b)
   congr 1
   rw [find?_eq_head?_of_all, List.head?_reverse]
   intro x hx
-  have := recsOf_tid_le hpre x (List.mem_reverse.1 hx)
-  simp; omega
+  have h1 : x.1 ≤ T := recsOf_tid_le hpre x (List.mem_reverse.1 hx)
+  simp only [decide_eq_true_eq]; omega
 
 theorem firstFrom_append {pre post : History} {T b : Tid} (hb : T < b)
     (hpre : ∀ t ∈ pre, t.tid ≤ T) (o : Oid) :
@@ -141,8 +144,8 @@ theorem firstFrom_append {pre post : History} {T b : Tid} (hb : T < b)
   rw [recsOf_append, List.find?_append, find?_eq_none_of_all]
   · simp
   · intro x hx
-    have := recsOf_tid_le hpre x hx
-    simp; omega
+    have h1 : x.1 ≤ T := recsOf_tid_le hpre x hx
+    simp only [decide_eq_false_iff_not]; omega
 
 /-- at the pack time itself nothing after it is visible -/
 theorem lastBefore_at_T {pre post : History} {T : Tid}
@@ -153,8 +156,8 @@ theorem lastBefore_at_T {pre post : History} {T : Tid}
     unfold lastBefore
     apply find?_eq_none_of_all
     intro x hx
-    have := recsOf_tid_gt hpost x (List.mem_reverse.1 hx)
-    simp; omega
+    have h1 : T < x.1 := recsOf_tid_gt hpost x (List.mem_reverse.1 hx)
+    simp only [decide_eq_false_iff_not]; omega
   rw [this]; rfl
 
 theorem lastBefore_mem {h : History} {o : Oid} {b : Tid} {x : Tid × Rec}
